@@ -26,10 +26,21 @@ type fdLog struct {
 	maxIn    int
 	mutated  bool
 	overflow bool
+	closed   bool
+	late     int
+}
+
+//go:norace
+func (l *fdLog) close() {
+	l.closed = true
+	l.late += l.inflight
 }
 
 //go:norace
 func (l *fdLog) enter(x []float64) {
+	if l.closed {
+		l.late++
+	}
 	if (l.n+1)*l.dim <= len(l.xs) {
 		for i := 0; i < l.dim; i++ {
 			l.xs[l.n*l.dim+i] = x[i]
@@ -264,9 +275,13 @@ func runFD(t *simrt.Tape, rc *RunCtx) *Violation {
 	rc.Instance["gomaxprocs"] = cfg.GOMAXPROCS
 	cLog := newLog()
 	var got []float64
-	out, v := rc.Sim(prop, t, cfg, func() { got = compute(true, cLog, true) })
+	out, v := rc.Sim(prop, t, cfg, func() { got = compute(true, cLog, true); cLog.close() })
 	if v != nil {
 		return v
+	}
+	rc.oracle("no-evaluation-after-return")
+	if cLog.late > 0 {
+		return &Violation{prop, "fd/evaluation-after-return", fmt.Sprintf("%s (%s, Concurrent): %d evaluation(s) of f were running or started after the call had returned", name, form.name, cLog.late)}
 	}
 	if out.Goroutines > 1 {
 		rc.probe("concurrent_path_taken", 1)
